@@ -15,6 +15,12 @@ import (
 )
 
 func init() {
+	mutant(&Mutant{Name: "c10-reference-end-searched-in-the-whole-rest", Property: "C10", File: "html/html.go",
+		Old: "if n := bytes.IndexByte(b[i:end], ';'); 1 < n {", New: "if n := bytes.IndexByte(b[i:], ';'); 1 < n && n < 34 {",
+		Rule: "R10.21", Construct: "html.decodeAttrVal/search from the cursor"})
+	mutant(&Mutant{Name: "c10-pipe-left-open-after-an-early-return", Property: "C10", File: "minify.go",
+		Old: "\t\tdefer z.wg.Done()\n\t\tdefer pr.Close()\n\t\tif err := m.Minify(mediatype, w, pr); err != nil {\n\t\t\tz.err = err\n\t\t}", New: "\t\tdefer z.wg.Done()\n\t\tif err := m.Minify(mediatype, w, pr); err != nil {\n\t\t\tz.err = err\n\t\t\tpr.CloseWithError(err)\n\t\t}",
+		Rule: "R10.20", Construct: "minify.M.Writer/goroutine"})
 	mutant(&Mutant{Name: "c10-whitespace-lookahead-unbounded", Property: "C10", File: "html/html.go",
 		Old: "\t\t\t\t\t\tif maxWhitespaceLookahead < i {\n", New: "\t\t\t\t\t\tif maxWhitespaceLookahead < 0 {\n",
 		Rule: "R10.19", Construct: "case html.TextToken/look-ahead loop#1"})
@@ -112,6 +118,9 @@ func runC10(c *Ctx) {
 	c.r1017()
 	c.r1018()
 	c.r1019()
+	// a minifier that returns without reading everything must not leave the writer blocked on the pipe for ever
+	c.pipeProtocol("R10.20")
+	c.r1021()
 	// a look-ahead past the end of the input must not index past the token buffer (clause (e) of the token buffer rules)
 	c.alsoUnder(map[string]string{"R03.5": "R10.10", "R05.12": "R10.10", "R06.8": "R10.10"}, func(construct string) bool {
 		return strings.Contains(construct, "index clamped") || strings.Contains(construct, "early ends of the read loop")
